@@ -138,14 +138,25 @@ def make_config_sampler(c, ds, model=False):
     return PermSampler(ds, c.get("key"), c.get("take"))
 
 
+def tags_of(spec):
+    """tag carried by the dataset of every concat part (0 = main): a config marked 'share' draws from the very dataset OBJECT of the config
+    before it (e.g. a full validation pass and a quick random pass over one validation set)"""
+    tags = [0]
+    for k, c in enumerate(spec["configs"]):
+        tags.append(tags[k] if (c.get("share") and k > 0 and c["size"] == spec["configs"][k - 1]["size"]) else k + 1)
+    return tags
+
+
 def build_impl(spec, start=None):
     """real InterleavedSampler for the spec; returns (sampler, main_sampler)"""
     from kappadata.samplers import InterleavedSampler, InterleavedSamplerConfig
     main_ds = TagDataset(main_size(spec), 0)
     main = make_main_sampler(spec, main_ds)
     configs = []
+    tags, made = tags_of(spec), {}
     for k, c in enumerate(spec["configs"]):
-        ds = TagDataset(c["size"], k + 1)
+        ds = made.get(tags[k + 1]) or TagDataset(c["size"], tags[k + 1])
+        made[tags[k + 1]] = ds
         if spec.get("call") == "positional":
             # the documented field order of the config dataclass: sampler, every_n_epochs, every_n_updates, every_n_samples, collator,
             # batch_size
@@ -294,6 +305,8 @@ def config(draw, N, single_kind_only=False):
     form = draw(st.sampled_from(["int", "int", "int", "numpy", "tensor", "growing"]))
     if form != "int":
         c["form"] = form
+    if draw(st.integers(0, 3)) == 0:
+        c["share"] = True  # takes effect when the config before it has a dataset of the same size (see full_spec)
     return c
 
 
@@ -302,6 +315,11 @@ def full_spec(draw, max_configs=4, small=False, allow_zero_budget=True, single_k
     g = draw(geometry(small=small))
     n_cfg = draw(st.integers(min_configs, max_configs))
     g["configs"] = [draw(config(g["N"], single_kind_only=single_kind_only)) for _ in range(n_cfg)]
+    for k in range(1, n_cfg):
+        if g["configs"][k].get("share"):
+            g["configs"][k]["size"] = g["configs"][k - 1]["size"]
+            if "take" in g["configs"][k]:
+                g["configs"][k]["take"] = min(g["configs"][k]["take"], max(1, g["configs"][k]["size"]))
     if allow_zero_budget and n_cfg > 0 and draw(st.integers(0, 14)) == 0:
         g["budget"] = 0
     if draw(st.integers(0, 3)) == 0:
